@@ -236,6 +236,9 @@ func init() {
 			}
 			return args[1]
 		},
+		"vNativeReps": func(ex *Exec, g *Goroutine, cs *callSite, args []Value) Value {
+			return args[0]
+		},
 		// vIdealEq(a, b): structural equality in the ideal-crypto model (distinct
 		// ideal outputs are never equal); natively bytes.Equal.
 		"vIdealEq": func(ex *Exec, g *Goroutine, cs *callSite, args []Value) Value {
